@@ -325,7 +325,7 @@ func newSvcModel(full bool) *svcModel {
 	vclock.Enable(vclock.Epoch)
 	m := &svcModel{st: fakeetcd.New()}
 	m.s = bootServer(m.st)
-	services := []string{"a", "b", "gc_worker"}
+	services := []string{"a", "b/gc_worker", "gc_worker"} // "b/gc_worker": an ordinary service whose id merely ends like the collector's
 	ttls := []int64{-1, 0, 5, math.MaxInt64 - 1, math.MaxInt64}
 	sps := []uint64{10, 20, 30}
 	if full {
